@@ -1,5 +1,628 @@
-(* C08_Proofs.v — lemmas about the statement selection model (under construction). *)
+(* C08_Proofs.v — lemmas about the statement selection model.
+   Part 1: value level (which statement is chosen).
+   Part 2: heap level (the loops over Go objects refine the value level; what is handed
+           out is made of fresh objects only, so writes through it never reach the document).
+   Part 3: the correspondence model [model] in closed form, and the oracle. *)
+From Coq Require Import Permutation.
 From NV Require Import Base Regex Generated C08_Model.
 Open Scope string_scope.
 
-Lemma placeholder : True. Proof. exact I. Qed.
+(* ================================================================== *)
+(* Part 1 — value level                                                *)
+
+Lemma mem_str_In x l : mem_str x l = true <-> In x l.
+Proof.
+  unfold mem_str. rewrite existsb_exists. split.
+  - intros [y [Hy E]]. apply String.eqb_eq in E. subst. exact Hy.
+  - intros H. exists x. split; [exact H | apply String.eqb_refl].
+Qed.
+
+Lemma has_scope_In p s : has_scope p s = true <-> In p (s_scopes s).
+Proof. apply mem_str_In. Qed.
+
+Lemma has_scope_notIn p s : has_scope p s = false <-> ~ In p (s_scopes s).
+Proof.
+  rewrite <- has_scope_In. destruct (has_scope p s); split; intros H; congruence.
+Qed.
+
+Lemma nodupb_NoDup l : nodupb l = true -> NoDup l.
+Proof.
+  induction l as [|x t IH]; cbn; intros H; [constructor|].
+  apply andb_true_iff in H. destruct H as [H1 H2]. constructor; [|auto].
+  intros Hin. apply mem_str_In in Hin. rewrite Hin in H1. discriminate.
+Qed.
+
+Lemma NoDup_app_disj {A} (l1 l2 : list A) x : NoDup (l1 ++ l2) -> In x l1 -> In x l2 -> False.
+Proof.
+  induction l1 as [|a t IH]; cbn; intros H H1 H2; [contradiction|].
+  inversion H as [|? ? Hn Hd]; subst. destruct H1 as [->|H1].
+  - apply Hn. apply in_or_app. right. exact H2.
+  - exact (IH Hd H1 H2).
+Qed.
+
+Lemma NoDup_app_r {A} (l1 l2 : list A) : NoDup (l1 ++ l2) -> NoDup l2.
+Proof.
+  induction l1 as [|a t IH]; cbn; intros H; [exact H|].
+  inversion H; subst. auto.
+Qed.
+
+(* ---- what validity gives: at most one statement per scope / name / global flag ---- *)
+Definition uniq_by (P : stmt -> Prop) (d : list stmt) : Prop :=
+  forall x y, In x d -> In y d -> P x -> P y -> x = y.
+
+Lemma scopes_inj d : scopes_unique d = true -> forall p, uniq_by (fun s => In p (s_scopes s)) d.
+Proof.
+  unfold scopes_unique. intros H. apply nodupb_NoDup in H. intros p.
+  induction d as [|a t IH]; intros x y Hx Hy Px Py; [contradiction|].
+  cbn in H. assert (Ht : NoDup (List.concat (map s_scopes t))) by (eapply NoDup_app_r; exact H).
+  assert (Hc : forall z, In z t -> In p (s_scopes z) -> In p (List.concat (map s_scopes t))).
+  { intros z Hz Pz. apply in_concat. exists (s_scopes z). split; [apply in_map; exact Hz | exact Pz]. }
+  destruct Hx as [Hx|Hx], Hy as [Hy|Hy].
+  - congruence.
+  - subst x. exfalso. eapply NoDup_app_disj; [exact H | exact Px | eapply Hc; eauto].
+  - subst y. exfalso. eapply NoDup_app_disj; [exact H | exact Py | eapply Hc; eauto].
+  - exact (IH Ht x y Hx Hy Px Py).
+Qed.
+
+Lemma names_inj d : names_unique d = true -> forall n, uniq_by (fun s => s_name s = n) d.
+Proof.
+  unfold names_unique. intros H. apply nodupb_NoDup in H. intros n.
+  induction d as [|a t IH]; intros x y Hx Hy Px Py; [contradiction|].
+  cbn in H. apply NoDup_cons_iff in H. destruct H as [Hn Hd].
+  destruct Hx as [Hx|Hx], Hy as [Hy|Hy].
+  - congruence.
+  - subst x. exfalso. apply Hn. rewrite Px, <- Py. apply in_map. exact Hy.
+  - subst y. exfalso. apply Hn. rewrite Py, <- Px. apply in_map. exact Hx.
+  - exact (IH Hd x y Hx Hy Px Py).
+Qed.
+
+Lemma global_inj d : global_unique d = true -> uniq_by (fun s => s_global s = true) d.
+Proof.
+  unfold global_unique. intros H x y Hx Hy Px Py.
+  assert (Fx : In x (filter s_global d)) by (apply filter_In; auto).
+  assert (Fy : In y (filter s_global d)) by (apply filter_In; auto).
+  destruct (filter s_global d) as [|z [|z' l]]; try discriminate; cbn in *; [contradiction|].
+  destruct Fx as [Fx|[]], Fy as [Fy|[]]. congruence.
+Qed.
+
+Lemma list_eqb_str a b : list_eqb String.eqb a b = true <-> a = b.
+Proof. apply list_eqb_spec. intros x y. apply String.eqb_eq. Qed.
+
+Lemma wildcard_alone_spec d : wildcard_alone d = true ->
+  forall s, In s d -> In wildcard (s_scopes s) -> s_scopes s = [wildcard].
+Proof.
+  unfold wildcard_alone. rewrite forallb_forall. intros H s Hs Hw.
+  specialize (H s Hs). apply mem_str_In in Hw. rewrite Hw in H. cbn in H.
+  apply list_eqb_str. exact H.
+Qed.
+
+Record valid (d : list stmt) : Prop := mk_valid {
+  vd_scopes : forall p, uniq_by (fun s => In p (s_scopes s)) d;
+  vd_names : forall n, uniq_by (fun s => s_name s = n) d;
+  vd_global : uniq_by (fun s => s_global s = true) d }.
+
+Lemma valid_doc_valid d : valid_doc d = true -> valid d.
+Proof.
+  unfold valid_doc. rewrite !andb_true_iff. intros [[[H1 H2] H3] _].
+  constructor; [apply scopes_inj | apply names_inj | apply global_inj]; assumption.
+Qed.
+
+Lemma valid_doc_wildcard d : valid_doc d = true ->
+  forall s, In s d -> In wildcard (s_scopes s) -> s_scopes s = [wildcard].
+Proof.
+  unfold valid_doc. rewrite !andb_true_iff. intros [_ H]. apply wildcard_alone_spec. exact H.
+Qed.
+
+Lemma valid_perm d d' : Permutation d d' -> valid d -> valid d'.
+Proof.
+  intros P [H1 H2 H3]. apply Permutation_sym in P.
+  constructor; [intros p|intros n|]; intros x y Hx Hy;
+    apply (Permutation_in _ P) in Hx; apply (Permutation_in _ P) in Hy.
+  - apply H1; assumption.
+  - apply H2; assumption.
+  - apply H3; assumption.
+Qed.
+
+(* ---- find under uniqueness ---- *)
+Lemma find_uniq {A} (f : A -> bool) d s :
+  In s d -> f s = true -> (forall x, In x d -> f x = true -> x = s) -> find f d = Some s.
+Proof.
+  induction d as [|a t IH]; intros Hs Fs U; [contradiction|].
+  cbn. destruct (f a) eqn:Fa.
+  - f_equal. apply U; [now left | exact Fa].
+  - destruct Hs as [->|Hs]; [congruence|]. apply IH; auto. intros x Hx. apply U. now right.
+Qed.
+
+Lemma find_none_all {A} (f : A -> bool) d : (forall x, In x d -> f x = false) -> find f d = None.
+Proof.
+  induction d as [|a t IH]; intros H; [reflexivity|].
+  cbn. rewrite (H a (or_introl eq_refl)). apply IH. intros x Hx. apply H. now right.
+Qed.
+
+Lemma find_perm {A} (f : A -> bool) d d' :
+  (forall x y, In x d -> In y d -> f x = true -> f y = true -> x = y) ->
+  Permutation d d' -> find f d' = find f d.
+Proof.
+  intros U P. destruct (find f d) as [s|] eqn:E.
+  - apply find_some in E. destruct E as [Hs Fs]. apply find_uniq.
+    + eapply Permutation_in; eauto.
+    + exact Fs.
+    + intros x Hx Fx. apply U; auto. eapply Permutation_in; [apply Permutation_sym; exact P | exact Hx].
+  - apply find_none_all. intros x Hx. eapply find_none; [exact E|].
+    eapply Permutation_in; [apply Permutation_sym; exact P | exact Hx].
+Qed.
+
+(* ---- the loop of OCIDocument.GetApplicableTrustPolicy ---- *)
+Definition last_sat {A} (f : A -> bool) (d : list A) (init : option A) : option A :=
+  fold_left (fun acc s => if f s then Some s else acc) d init.
+
+Definition exact_only (p : string) (s : stmt) : bool := negb (has_scope wildcard s) && has_scope p s.
+
+Lemma oci_fold p d : forall w a,
+  fold_left (oci_step p) d (w, a) =
+  (last_sat (has_scope wildcard) d w, last_sat (exact_only p) d a).
+Proof.
+  unfold last_sat, exact_only. induction d as [|s t IH]; intros w a; [reflexivity|].
+  cbn [fold_left]. unfold oci_step at 2. cbn [fst snd].
+  destruct (has_scope wildcard s); cbn [negb andb]; [apply IH|].
+  destruct (has_scope p s); apply IH.
+Qed.
+
+Lemma last_sat_none {A} (f : A -> bool) d : forall init,
+  (forall x, In x d -> f x = false) -> last_sat f d init = init.
+Proof.
+  unfold last_sat. induction d as [|a t IH]; intros init H; [reflexivity|].
+  cbn. rewrite (H a (or_introl eq_refl)). apply IH. intros x Hx. apply H. now right.
+Qed.
+
+Lemma last_sat_keep {A} (f : A -> bool) d s :
+  (forall x, In x d -> f x = true -> x = s) -> last_sat f d (Some s) = Some s.
+Proof.
+  unfold last_sat. induction d as [|a t IH]; intros U; [reflexivity|].
+  cbn. destruct (f a) eqn:Fa.
+  - rewrite (U a (or_introl eq_refl) Fa). apply IH. intros x Hx. apply U. now right.
+  - apply IH. intros x Hx. apply U. now right.
+Qed.
+
+Lemma last_sat_uniq {A} (f : A -> bool) d s : forall init,
+  In s d -> f s = true -> (forall x, In x d -> f x = true -> x = s) -> last_sat f d init = Some s.
+Proof.
+  induction d as [|a t IH]; intros init Hs Fs U; [contradiction|].
+  destruct Hs as [->|Hs].
+  - unfold last_sat. cbn. rewrite Fs. apply last_sat_keep. intros x Hx. apply U. now right.
+  - unfold last_sat. cbn. apply IH; auto. intros x Hx. apply U. now right.
+Qed.
+
+Lemma last_sat_find {A} (f : A -> bool) d :
+  (forall x y, In x d -> In y d -> f x = true -> f y = true -> x = y) ->
+  last_sat f d None = find f d.
+Proof.
+  intros U. destruct (find f d) as [s|] eqn:E.
+  - apply find_some in E. destruct E as [Hs Fs]. apply last_sat_uniq; auto.
+  - apply last_sat_none. intros x Hx. eapply find_none; eauto.
+Qed.
+
+(* the result of the loop: the statement listing p, else the wildcard statement *)
+Lemma oci_pick_find p d : (forall q, uniq_by (fun s => In q (s_scopes s)) d) ->
+  oci_pick (fold_left (oci_step p) d (None, None)) =
+  match find (has_scope p) d with Some s => Some s | None => find (has_scope wildcard) d end.
+Proof.
+  intros U. rewrite oci_fold. unfold oci_pick. cbn [fst snd].
+  assert (Uw : forall x y, In x d -> In y d -> has_scope wildcard x = true -> has_scope wildcard y = true -> x = y).
+  { intros x y Hx Hy Fx Fy. apply (U wildcard); auto; apply has_scope_In; assumption. }
+  assert (Up : forall x y, In x d -> In y d -> has_scope p x = true -> has_scope p y = true -> x = y).
+  { intros x y Hx Hy Fx Fy. apply (U p); auto; apply has_scope_In; assumption. }
+  destruct (find (has_scope p) d) as [s|] eqn:E.
+  - apply find_some in E. destruct E as [Hs Fs].
+    destruct (has_scope wildcard s) eqn:Ws.
+    + rewrite (last_sat_none (exact_only p) d None).
+      * apply last_sat_uniq; auto.
+      * intros x Hx. unfold exact_only. destruct (has_scope p x) eqn:Px; [|apply andb_false_r].
+        rewrite (Up x s Hx Hs Px Fs), Ws. reflexivity.
+    + rewrite (last_sat_uniq (exact_only p) d s None); auto.
+      * unfold exact_only. rewrite Ws, Fs. reflexivity.
+      * intros x Hx Fx. unfold exact_only in Fx. apply andb_true_iff in Fx. apply Up; tauto.
+  - rewrite (last_sat_none (exact_only p) d None).
+    + apply last_sat_find. exact Uw.
+    + intros x Hx. unfold exact_only. rewrite (find_none _ _ E x Hx). apply andb_false_r.
+Qed.
+
+(* ---- the reference: text before the last '@' ---- *)
+Lemma last_at_none s : last_at s = None <-> contains_byte "@" s = false.
+Proof.
+  induction s as [|a s IH]; cbn; [tauto|].
+  destruct (last_at s) as [p|].
+  - split; [discriminate|]. intros H. apply orb_false_iff in H. destruct H as [_ H].
+    apply IH in H. discriminate.
+  - destruct (Ascii.eqb a "@"); cbn; [split; discriminate|]. tauto.
+Qed.
+
+Lemma last_at_app p dg : contains_byte "@" dg = false -> last_at (p ++ "@" ++ dg) = Some p.
+Proof.
+  intros H. apply last_at_none in H. induction p as [|a p IH]; cbn.
+  - rewrite H. reflexivity.
+  - cbn in IH. rewrite IH. reflexivity.
+Qed.
+
+(* conversely: every reference with an '@' is path @ digest with an '@'-free digest *)
+Lemma last_at_some ref p : last_at ref = Some p ->
+  exists dg, ref = p ++ "@" ++ dg /\ contains_byte "@" dg = false.
+Proof.
+  revert p. induction ref as [|a s IH]; cbn; intros p H; [discriminate|].
+  destruct (last_at s) as [q|] eqn:E.
+  - inversion H; subst. destruct (IH q eq_refl) as (dg & -> & Hd). exists dg. split; [reflexivity | exact Hd].
+  - destruct (Ascii.eqb a "@") eqn:Ea; [|discriminate]. inversion H; subst.
+    apply Ascii.eqb_eq in Ea. subst a. exists s. split; [reflexivity|]. apply last_at_none. exact E.
+Qed.
+
+Lemma scope_ok_not_wildcard p : scope_ok p = true -> p <> wildcard.
+Proof. intros H E. subst p. vm_compute in H. discriminate. Qed.
+
+(* ---- closed forms of the three selections on a valid document ---- *)
+Lemma v_oci_find d ref p : valid d -> last_at ref = Some p -> scope_ok p = true ->
+  v_oci d ref = match find (has_scope p) d with
+                | Some s => RSel s
+                | None => match find (has_scope wildcard) d with Some w => RSel w | None => RErr 3 end
+                end.
+Proof.
+  intros V L S. unfold v_oci. rewrite L, S. cbn [negb]. rewrite (oci_pick_find p d (vd_scopes d V)).
+  destruct (find (has_scope p) d); [reflexivity|]. destruct (find (has_scope wildcard) d); reflexivity.
+Qed.
+
+Lemma name_is_eq n s : name_is n s = true <-> s_name s = n.
+Proof. unfold name_is. apply String.eqb_eq. Qed.
+
+(* ---- C08_selects ---- *)
+Lemma selects d p dg : valid_doc d = true -> contains_byte "@" dg = false -> scope_ok p = true ->
+  let r := v_select d (QOci (p ++ "@" ++ dg)) in
+  (forall s, In s d -> In p (s_scopes s) ->
+     r = RSel s /\ forall s', In s' d -> In p (s_scopes s') -> s' = s)
+  /\ ((forall s, In s d -> ~ In p (s_scopes s)) ->
+      (forall w, In w d -> In wildcard (s_scopes w) ->
+         r = RSel w /\ s_scopes w = [wildcard] /\ forall w', In w' d -> In wildcard (s_scopes w') -> w' = w)
+      /\ ((forall s, In s d -> ~ In wildcard (s_scopes s)) -> r = RErr 3)).
+Proof.
+  intros VD Hd S r. pose proof (valid_doc_valid d VD) as V.
+  assert (R : r = v_oci d (p ++ "@" ++ dg)) by reflexivity.
+  rewrite (v_oci_find d _ p V (last_at_app p dg Hd) S) in R.
+  split; [|intros Hn; split].
+  - intros s Hs Ps. split.
+    + rewrite R. rewrite (find_uniq (has_scope p) d s Hs); [reflexivity | now apply has_scope_In |].
+      intros x Hx Fx. apply (vd_scopes d V p); auto. now apply has_scope_In.
+    + intros s' Hs' Ps'. apply (vd_scopes d V p); auto.
+  - intros w Hw Pw. split; [|split].
+    + rewrite R. rewrite (find_none_all (has_scope p) d).
+      * rewrite (find_uniq (has_scope wildcard) d w Hw); [reflexivity | now apply has_scope_In |].
+        intros x Hx Fx. apply (vd_scopes d V wildcard); auto. now apply has_scope_In.
+      * intros x Hx. apply has_scope_notIn. auto.
+    + apply (valid_doc_wildcard d VD); assumption.
+    + intros w' Hw' Pw'. apply (vd_scopes d V wildcard); auto.
+  - intros Hnw. rewrite R. rewrite (find_none_all (has_scope p) d), (find_none_all (has_scope wildcard) d).
+    + reflexivity.
+    + intros x Hx. apply has_scope_notIn. auto.
+    + intros x Hx. apply has_scope_notIn. auto.
+Qed.
+
+(* malformed references are refused whatever the document says *)
+Lemma no_at_refused d ref : contains_byte "@" ref = false -> v_select d (QOci ref) = RErr 1.
+Proof. intros H. apply last_at_none in H. unfold v_select, v_oci. rewrite H. reflexivity. Qed.
+
+Lemma bad_path_refused d p dg : contains_byte "@" dg = false -> scope_ok p = false ->
+  v_select d (QOci (p ++ "@" ++ dg)) = RErr 2.
+Proof. intros Hd S. unfold v_select, v_oci. rewrite (last_at_app p dg Hd), S. reflexivity. Qed.
+
+(* ---- C08_exact: whatever the document (valid or not), a statement is only ever
+   returned because it lists the path itself, or the wildcard ---- *)
+Lemma last_sat_in {A} (f : A -> bool) d : forall init s,
+  last_sat f d init = Some s -> init = Some s \/ (In s d /\ f s = true).
+Proof.
+  unfold last_sat. induction d as [|a t IH]; intros init s H; [left; exact H|].
+  cbn in H. apply IH in H. destruct H as [H|[H1 H2]]; [|right; split; [now right | exact H2]].
+  destruct (f a) eqn:Fa; [|left; exact H]. inversion H; subst. right. split; [now left | exact Fa].
+Qed.
+
+Lemma last_sat_is_none {A} (f : A -> bool) d : forall init,
+  last_sat f d init = None -> init = None /\ forall x, In x d -> f x = false.
+Proof.
+  unfold last_sat. induction d as [|a t IH]; intros init H; [split; [exact H | intros x []]|].
+  cbn in H. apply IH in H. destruct H as [H1 H2]. destruct (f a) eqn:Fa; [discriminate|].
+  split; [exact H1|]. intros x [<-|Hx]; auto.
+Qed.
+
+Lemma exact d ref s : v_select d (QOci ref) = RSel s ->
+  exists p, last_at ref = Some p /\ scope_ok p = true /\ In s d /\
+            (In p (s_scopes s) \/ (In wildcard (s_scopes s) /\ forall s', In s' d -> In wildcard (s_scopes s') \/ ~ In p (s_scopes s'))).
+Proof.
+  cbn. unfold v_oci. destruct (last_at ref) as [p|]; [|discriminate].
+  destruct (scope_ok p) eqn:S; cbn [negb]; [|discriminate].
+  rewrite oci_fold. unfold oci_pick. cbn [fst snd]. intros H. exists p. split; [reflexivity|]. split; [exact S|].
+  destruct (last_sat (exact_only p) d None) as [a|] eqn:Ea.
+  - inversion H; subst. apply last_sat_in in Ea. destruct Ea as [Ea|[Hi Fa]]; [discriminate|].
+    split; [exact Hi|]. left. unfold exact_only in Fa. apply andb_true_iff in Fa. apply has_scope_In. tauto.
+  - destruct (last_sat (has_scope wildcard) d None) as [w|] eqn:Ew; [|discriminate].
+    inversion H; subst. apply last_sat_in in Ew. destruct Ew as [Ew|[Hi Fw]]; [discriminate|].
+    split; [exact Hi|]. right. split; [now apply has_scope_In|].
+    intros s' Hs'. destruct (has_scope wildcard s') eqn:W'; [left; now apply has_scope_In|].
+    right. apply has_scope_notIn. destruct (has_scope p s') eqn:P'; [|reflexivity]. exfalso.
+    apply last_sat_is_none in Ea. destruct Ea as [_ Ea]. specialize (Ea s' Hs').
+    unfold exact_only in Ea. rewrite W', P' in Ea. discriminate.
+Qed.
+
+(* ---- C08_blob ---- *)
+Lemma uniq_has d p : valid d ->
+  forall x y, In x d -> In y d -> has_scope p x = true -> has_scope p y = true -> x = y.
+Proof. intros V x y Hx Hy Fx Fy. apply (vd_scopes d V p); auto; now apply has_scope_In. Qed.
+
+Lemma uniq_name d n : valid d ->
+  forall x y, In x d -> In y d -> name_is n x = true -> name_is n y = true -> x = y.
+Proof. intros V x y Hx Hy Fx Fy. apply (vd_names d V n); auto; now apply name_is_eq. Qed.
+
+Lemma blob_name d n : valid_doc d = true -> blank n = false ->
+  let r := v_select d (QName n) in
+  (forall s, In s d -> s_name s = n ->
+     r = RSel s /\ forall s', In s' d -> s_name s' = n -> s' = s)
+  /\ ((forall s, In s d -> s_name s <> n) -> r = RErr 5).
+Proof.
+  intros VD Hb r. pose proof (valid_doc_valid d VD) as V.
+  assert (R : r = match find (name_is n) d with Some s => RSel s | None => RErr 5 end).
+  { unfold r, v_select, v_name. rewrite Hb. reflexivity. }
+  split.
+  - intros s Hs Ns. split.
+    + rewrite R, (find_uniq (name_is n) d s Hs); [reflexivity | now apply name_is_eq |].
+      intros x Hx Fx. apply (uniq_name d n V); auto. now apply name_is_eq.
+    + intros s' Hs' Ns'. apply (vd_names d V n); auto.
+  - intros Hn. rewrite R, (find_none_all (name_is n) d); [reflexivity|].
+    intros x Hx. destruct (name_is n x) eqn:E; [|reflexivity]. apply name_is_eq in E. exfalso. exact (Hn x Hx E).
+Qed.
+
+Lemma blob_blank d n : blank n = true -> v_select d (QName n) = RErr 4.
+Proof. intros H. unfold v_select, v_name. rewrite H. reflexivity. Qed.
+
+Lemma blob_name_exact d n s : v_select d (QName n) = RSel s -> In s d /\ s_name s = n /\ blank n = false.
+Proof.
+  unfold v_select, v_name. destruct (blank n); [discriminate|].
+  destruct (find (name_is n) d) as [x|] eqn:E; [|discriminate]. intros H. inversion H; subst.
+  apply find_some in E. destruct E as [H1 H2]. apply name_is_eq in H2. auto.
+Qed.
+
+Lemma blob_global d : valid_doc d = true ->
+  let r := v_select d QGlobal in
+  (forall s, In s d -> s_global s = true ->
+     r = RSel s /\ forall s', In s' d -> s_global s' = true -> s' = s)
+  /\ ((forall s, In s d -> s_global s = false) -> r = RErr 6).
+Proof.
+  intros VD r. pose proof (valid_doc_valid d VD) as V.
+  assert (R : r = match find s_global d with Some s => RSel s | None => RErr 6 end) by reflexivity.
+  split.
+  - intros s Hs Gs. split.
+    + rewrite R, (find_uniq s_global d s Hs Gs); [reflexivity|].
+      intros x Hx Fx. apply (vd_global d V); auto.
+    + intros s' Hs' Gs'. apply (vd_global d V); auto.
+  - intros Hn. rewrite R, (find_none_all s_global d Hn). reflexivity.
+Qed.
+
+Lemma blob_global_exact d s : v_select d QGlobal = RSel s -> In s d /\ s_global s = true.
+Proof.
+  unfold v_select, v_global. intros H. destruct (find s_global d) as [x|] eqn:E; [|discriminate].
+  inversion H; subst. apply find_some in E. exact E.
+Qed.
+
+(* ---- C08_order ---- *)
+Lemma order d d' q : valid_doc d = true -> Permutation d d' -> v_select d' q = v_select d q.
+Proof.
+  intros VD P. pose proof (valid_doc_valid d VD) as V. pose proof (valid_perm d d' P V) as V'.
+  destruct q as [ref|n|]; unfold v_select.
+  - unfold v_oci. destruct (last_at ref) as [p|]; [|reflexivity].
+    destruct (scope_ok p); cbn [negb]; [|reflexivity].
+    rewrite (oci_pick_find p d (vd_scopes d V)), (oci_pick_find p d' (vd_scopes d' V')).
+    rewrite (find_perm (has_scope p) d d' (uniq_has d p V) P).
+    rewrite (find_perm (has_scope wildcard) d d' (uniq_has d wildcard V) P). reflexivity.
+  - unfold v_name. destruct (blank n); [reflexivity|].
+    rewrite (find_perm (name_is n) d d' (uniq_name d n V) P). reflexivity.
+  - unfold v_global. rewrite (find_perm s_global d d' (vd_global d V) P). reflexivity.
+Qed.
+
+(* the result is always a statement of the document, unchanged *)
+Lemma select_in d q s : v_select d q = RSel s -> In s d.
+Proof.
+  destruct q as [ref|n|]; intros H.
+  - destruct (exact d ref s H) as (p & _ & _ & Hi & _). exact Hi.
+  - apply blob_name_exact in H. tauto.
+  - apply blob_global_exact in H. tauto.
+Qed.
+
+(* ================================================================== *)
+(* Part 2 — heap level                                                 *)
+
+Local Open Scope nat_scope.
+
+(* h' is h with more objects allocated behind it *)
+Definition ext (h h' : heap) : Prop := exists e, h' = (h ++ e)%list.
+
+Lemma ext_refl h : ext h h.
+Proof. exists []. now rewrite app_nil_r. Qed.
+
+Lemma ext_trans h1 h2 h3 : ext h1 h2 -> ext h2 h3 -> ext h1 h3.
+Proof. intros [e1 ->] [e2 ->]. exists (e1 ++ e2)%list. now rewrite app_assoc. Qed.
+
+Lemma ext_len h h' : ext h h' -> List.length h <= List.length h'.
+Proof. intros [e ->]. rewrite app_length. lia. Qed.
+
+Lemma ext_snoc h o : ext h (h ++ [o])%list.
+Proof. exists [o]. reflexivity. Qed.
+
+(* h' and h hold the same objects below n *)
+Definition agree (n : nat) (h h' : heap) : Prop := forall o, o < n -> nth_error h' o = nth_error h o.
+
+Lemma agree_refl n h : agree n h h.
+Proof. intros o _. reflexivity. Qed.
+
+Lemma agree_trans n h1 h2 h3 : agree n h1 h2 -> agree n h2 h3 -> agree n h1 h3.
+Proof. intros A B o Ho. rewrite (B o Ho). apply A. exact Ho. Qed.
+
+Lemma agree_mono n n' h h' : n' <= n -> agree n h h' -> agree n' h h'.
+Proof. intros L A o Ho. apply A. lia. Qed.
+
+Lemma ext_agree h h' : ext h h' -> agree (List.length h) h h'.
+Proof. intros [e ->] o Ho. apply nth_error_app1. exact Ho. Qed.
+
+Lemma nth_snoc (h : heap) o : nth_error (h ++ [o])%list (List.length h) = Some o.
+Proof. rewrite nth_error_app2 by lia. rewrite Nat.sub_diag. reflexivity. Qed.
+
+Definition inb (n : nat) (r : option oid) : Prop := match r with None => True | Some o => o < n end.
+Definition geb (n : nat) (r : option oid) : Prop := match r with None => True | Some o => n <= o end.
+
+Lemma inb_mono n n' r : n <= n' -> inb n r -> inb n' r.
+Proof. destruct r; cbn; [lia | trivial]. Qed.
+
+Lemma geb_mono n n' r : n' <= n -> geb n r -> geb n' r.
+Proof. destruct r; cbn; [lia | trivial]. Qed.
+
+Lemma get_arr_agree n h h' r : agree n h h' -> inb n r -> get_arr h' r = get_arr h r.
+Proof. intros A I. destruct r as [o|]; cbn in *; [rewrite (A o I)|]; reflexivity. Qed.
+
+Lemma get_map_agree n h h' r : agree n h h' -> inb n r -> get_map h' r = get_map h r.
+Proof. intros A I. destruct r as [o|]; cbn in *; [rewrite (A o I)|]; reflexivity. Qed.
+
+(* the statement struct at sid and everything it points to live below n *)
+Definition closed (n : nat) (h : heap) (sid : oid) : Prop :=
+  sid < n /\ match nth_error h sid with
+             | Some (OStmt _ sc _ ov _ st ids _) => inb n sc /\ inb n ov /\ inb n st /\ inb n ids
+             | _ => False
+             end.
+
+Lemma view_agree n h h' sid : agree n h h' -> closed n h sid -> view h' sid = view h sid.
+Proof.
+  intros A [L C]. unfold view. rewrite (A sid L).
+  destruct (nth_error h sid) as [[| |nm sc lv ov vts st ids g]|]; try reflexivity.
+  destruct C as (C1 & C2 & C3 & C4).
+  rewrite !(get_arr_agree n h h') by assumption. rewrite (get_map_agree n h h') by assumption. reflexivity.
+Qed.
+
+Lemma closed_agree n h h' sid : agree n h h' -> closed n h sid -> closed n h' sid.
+Proof. intros A [L C]. split; [exact L|]. rewrite (A sid L). exact C. Qed.
+
+Lemma closed_mono n n' h sid : n <= n' -> closed n h sid -> closed n' h sid.
+Proof.
+  intros L [L1 C]. split; [lia|].
+  destruct (nth_error h sid) as [[| |nm sc lv ov vts st ids g]|]; try contradiction.
+  destruct C as (C1 & C2 & C3 & C4). repeat split; eapply inb_mono; eauto.
+Qed.
+
+Lemma closed_ext h h' sid : ext h h' -> closed (List.length h) h sid -> closed (List.length h') h' sid.
+Proof.
+  intros E C. eapply closed_mono; [apply ext_len; exact E|].
+  eapply closed_agree; [apply ext_agree; exact E | exact C].
+Qed.
+
+(* the handed-out struct p and everything it points to live at or above n *)
+Definition priv (n : nat) (h : heap) (p : oid) : Prop :=
+  n <= p /\ forall ob, nth_error h p = Some ob -> forall o, In o (ptr_fields ob) -> n <= o.
+
+Lemma in_olist o r : In o (olist r) <-> r = Some o.
+Proof.
+  destruct r as [x|]; cbn; split; intros H.
+  - destruct H as [H|H]; [subst; reflexivity | contradiction].
+  - inversion H. left. reflexivity.
+  - contradiction.
+  - discriminate.
+Qed.
+
+Lemma priv_fields n sc ov st ids nm lv vts g :
+  geb n sc -> geb n ov -> geb n st -> geb n ids ->
+  forall o, In o (ptr_fields (OStmt nm sc lv ov vts st ids g)) -> n <= o.
+Proof.
+  intros G1 G2 G3 G4 o. cbn. rewrite !in_app_iff, !in_olist.
+  intros [->|[->|[->|->]]]; assumption.
+Qed.
+
+(* ---- allocation of slices and maps ---- *)
+Lemma load_arr_spec h l h' r : load_arr h l = (h', r) ->
+  ext h h' /\ inb (List.length h') r /\ geb (List.length h) r /\ get_arr h' r = l.
+Proof.
+  unfold load_arr, alloc. destruct l as [|x t]; intros E; inversion E; subst; clear E.
+  - repeat split; [apply ext_refl | exact I | exact I].
+  - repeat split; [apply ext_snoc | cbn; rewrite app_length; cbn; lia | cbn; lia |].
+    unfold get_arr. rewrite nth_snoc. reflexivity.
+Qed.
+
+Lemma load_map_spec h m h' r : load_map h m = (h', r) ->
+  ext h h' /\ inb (List.length h') r /\ geb (List.length h) r /\ get_map h' r = m.
+Proof.
+  unfold load_map, alloc. destruct m as [|x t]; intros E; inversion E; subst; clear E.
+  - repeat split; [apply ext_refl | exact I | exact I].
+  - repeat split; [apply ext_snoc | cbn; rewrite app_length; cbn; lia | cbn; lia |].
+    unfold get_map. rewrite nth_snoc. reflexivity.
+Qed.
+
+Lemma clone_arr_load h r : clone_arr h r = load_arr h (get_arr h r).
+Proof. unfold clone_arr, load_arr. destruct (get_arr h r); reflexivity. Qed.
+
+Lemma clone_map_spec h r h' r' : clone_map true h r = (h', r') ->
+  ext h h' /\ inb (List.length h') r' /\ geb (List.length h) r' /\ get_map h' r' = get_map h r.
+Proof.
+  unfold clone_map, alloc. destruct r as [o|]; intros E; inversion E; subst; clear E.
+  - repeat split; [apply ext_snoc | cbn; rewrite app_length; cbn; lia | cbn; lia |].
+    unfold get_map at 1. rewrite nth_snoc. reflexivity.
+  - repeat split; [apply ext_refl | exact I | exact I].
+Qed.
+
+(* a struct allocated behind its four field objects *)
+Lemma build_spec n0 h4 nm sc lv ov vts st ids g hsc hov hst hids :
+  ext hsc h4 -> inb (List.length hsc) sc -> ext hov h4 -> inb (List.length hov) ov ->
+  ext hst h4 -> inb (List.length hst) st -> ext hids h4 -> inb (List.length hids) ids ->
+  geb n0 sc -> geb n0 ov -> geb n0 st -> geb n0 ids -> n0 <= List.length h4 ->
+  let hf := (h4 ++ [OStmt nm sc lv ov vts st ids g])%list in
+  let p := List.length h4 in
+  view hf p = mk_stmt nm (get_arr hsc sc) (mk_sv lv (get_map hov ov) vts) (get_arr hst st) (get_arr hids ids) g
+  /\ closed (List.length hf) hf p /\ priv n0 hf p.
+Proof.
+  intros E1 I1 E2 I2 E3 I3 E4 I4 G1 G2 G3 G4 L hf p.
+  assert (Ef : ext h4 hf) by apply ext_snoc.
+  assert (Np : nth_error hf p = Some (OStmt nm sc lv ov vts st ids g)) by apply nth_snoc.
+  split; [|split].
+  - unfold view. rewrite Np.
+    rewrite (get_arr_agree _ hsc hf sc (ext_agree _ _ (ext_trans _ _ _ E1 Ef)) I1).
+    rewrite (get_map_agree _ hov hf ov (ext_agree _ _ (ext_trans _ _ _ E2 Ef)) I2).
+    rewrite (get_arr_agree _ hst hf st (ext_agree _ _ (ext_trans _ _ _ E3 Ef)) I3).
+    rewrite (get_arr_agree _ hids hf ids (ext_agree _ _ (ext_trans _ _ _ E4 Ef)) I4). reflexivity.
+  - split; [unfold hf, p; rewrite app_length; cbn; lia|]. rewrite Np.
+    repeat split; eapply inb_mono; try eassumption; apply ext_len; eapply ext_trans; eassumption.
+  - split; [exact L|]. intros ob Hob. rewrite Np in Hob. inversion Hob; subst.
+    apply priv_fields; assumption.
+Qed.
+
+(* ---- clone() ---- *)
+Lemma clone_spec n0 h sid h' p : n0 <= List.length h -> closed (List.length h) h sid ->
+  h_clone true h sid = (h', p) ->
+  ext h h' /\ view h' p = view h sid /\ closed (List.length h') h' p /\ priv n0 h' p.
+Proof.
+  intros L [Ls C] E. unfold h_clone in E. unfold view at 2.
+  destruct (nth_error h sid) as [[| |nm sc lv ov vts st ids g]|]; try contradiction.
+  destruct C as (C1 & C2 & C3 & C4).
+  destruct (clone_map true h ov) as [h1 ov'] eqn:E1.
+  rewrite !clone_arr_load in E.
+  destruct (load_arr h1 (get_arr h1 ids)) as [h2 ids'] eqn:E2.
+  destruct (load_arr h2 (get_arr h2 st)) as [h3 st'] eqn:E3.
+  destruct (load_arr h3 (get_arr h3 sc)) as [h4 sc'] eqn:E4.
+  unfold alloc in E. inversion E; subst h' p; clear E.
+  apply clone_map_spec in E1. destruct E1 as (X1 & I1 & G1 & V1).
+  apply load_arr_spec in E2. destruct E2 as (X2 & I2 & G2 & V2).
+  apply load_arr_spec in E3. destruct E3 as (X3 & I3 & G3 & V3).
+  apply load_arr_spec in E4. destruct E4 as (X4 & I4 & G4 & V4).
+  pose proof (ext_len _ _ X1) as L1. pose proof (ext_len _ _ X2) as L2.
+  pose proof (ext_len _ _ X3) as L3. pose proof (ext_len _ _ X4) as L4.
+  assert (A1 : agree (List.length h) h h1) by (apply ext_agree; exact X1).
+  assert (A2 : agree (List.length h) h h2) by (apply ext_agree; eapply ext_trans; eassumption).
+  assert (A3 : agree (List.length h) h h3) by (apply ext_agree; repeat (eapply ext_trans; [eassumption|]); apply ext_refl).
+  rewrite (get_arr_agree _ h h1 ids A1 C4) in V2.
+  rewrite (get_arr_agree _ h h2 st A2 C3) in V3.
+  rewrite (get_arr_agree _ h h3 sc A3 C1) in V4.
+  destruct (build_spec n0 h4 nm sc' lv ov' vts st' ids' g h4 h1 h3 h2) as (B1 & B2 & B3);
+    try assumption; try apply ext_refl; try (eapply geb_mono; [|eassumption]; lia); try lia.
+  - repeat (eapply ext_trans; [eassumption|]); apply ext_refl.
+  - eapply ext_trans; eassumption.
+  - split; [|split; [|split]]; try assumption.
+    + eapply ext_trans; [|apply ext_snoc]. repeat (eapply ext_trans; [eassumption|]). apply ext_refl.
+    + rewrite B1, V1, V2, V3, V4. reflexivity.
+Qed.
